@@ -78,6 +78,54 @@ PLANS['C12'] = _seq_plan('C12', 'Oracle: consumer <=> allocations invariant, '
                          'follow-up writes.')
 
 
+CONC_RULE = ('a seeded set-up history (3-15 requests) builds a state; then '
+             '2-3 generated requests racing for one provider / consumer / '
+             'inventory run on real threads under the baton-passing '
+             'scheduler, pre-emption only before a top-level BEGIN '
+             '(transaction granularity). Schedules: uniform random, 0-3 '
+             'forced pre-emptions, or targeted (park A before its k-th '
+             'transaction, run the others, resume A). distinct_nontrivial '
+             'counts DISTINCT (request kinds, schedule signature = sequence '
+             'of (task, transaction ordinal), statuses) triples among runs '
+             'in which at least one context switch separated two '
+             'transactions of one request.')
+CONC_N = {'quick': 2400, 'thorough': 40000}
+CONC_ASSUME = [
+    'interleavings are at database-transaction granularity with each '
+    'transaction atomic and isolated (as the property states); weaker '
+    'isolation levels (MySQL REPEATABLE READ snapshot reads, write skew) '
+    'are not modelled',
+]
+
+
+def _conc_plan(prop, foci, text):
+    def plan(tier):
+        n = CONC_N[tier] // len(foci)
+        return {
+            'runs': [('conc', {'focus': f}, n) for f in foci],
+            'level': 'exploration',
+            'rule': CONC_RULE + ' ' + text,
+            'assumptions': COMMON_ASSUMPTIONS + CONC_ASSUME,
+        }
+    return plan
+
+
+PLANS['C05'] = _conc_plan('C05', ['provider', 'mixed'],
+                          'Oracle: provider compare-and-swap specification '
+                          'linearised by commit order from the commit log; '
+                          'serial-permutation replay of the successes.')
+PLANS['C06'] = _conc_plan('C06', ['consumer', 'mixed'],
+                          'Oracle: consumer compare-and-swap specification '
+                          'linearised by commit order; final allocations == '
+                          'last success in commit order.')
+PLANS['C07'] = _conc_plan('C07', ['mixed', 'provider', 'consumer'],
+                          'Oracle: some serial permutation of the successful '
+                          'requests, replayed from the start snapshot, gives '
+                          'each of them success and the same stored state; '
+                          'failures have no net effect; invariants on the '
+                          'final state.')
+
+
 def plan_for(prop, tier):
     p = PLANS.get(prop)
     if p is None:
